@@ -12,6 +12,9 @@ pub enum Case {
     Months { from: i64, to: i64, wide: bool },
     /// per-month functions for every month of [y0, y1]
     MonthFns { y0: i64, y1: i64 },
+    /// history independence of the per-month functions: for the month (y, m) FIRST and then every other month of
+    /// 1970-2200 second (a remembered answer of the previous call must not leak into the next)
+    MonthPairs { y: i64, m: i64 },
     /// other modifiers on a calendar with holidays
     Modified { name: String, from: i64, to: i64 },
 }
@@ -68,6 +71,18 @@ fn spec_add_months(z: i64, off: i64, roll: &RollDay) -> i64 {
         RollDay::IMM {} => imm_day(ty, tm),
     };
     days_from_civil(ty, tm, day)
+}
+
+/// the roll date of a month (None for Unspecified, which needs a start day)
+fn spec_roll(y: i64, m: i64, roll: &RollDay) -> Option<i64> {
+    let day = match roll {
+        RollDay::Unspecified {} => return None,
+        RollDay::Int { day } => (*day as i64).min(month_len(y, m)),
+        RollDay::EoM {} => month_len(y, m),
+        RollDay::SoM {} => 1,
+        RollDay::IMM {} => imm_day(y, m),
+    };
+    Some(days_from_civil(y, m, day))
 }
 
 pub fn check(case: &Case, idx: u64, acc: &mut Acc) {
@@ -172,6 +187,35 @@ pub fn check(case: &Case, idx: u64, acc: &mut Acc) {
                 }
             }
         }
+        Case::MonthPairs { y, m } => {
+            let (y1, m1) = (*y as i32, *m as u32);
+            let kinds: [RollDay; 4] = [RollDay::IMM {}, RollDay::EoM {}, RollDay::Int { day: 30 }, RollDay::Int { day: 29 }];
+            for y2 in 1970..=2200i64 {
+                for m2 in 1..=12i64 {
+                    acc.evals_add(2);
+                    // IMM pair
+                    let _ = get_imm(y1, m1);
+                    let got = get_imm(y2 as i32, m2 as u32);
+                    let want = days_from_civil(y2, m2, imm_day(y2, m2));
+                    if from_ndt(&got) != want {
+                        acc.violate("pairs/get_imm-after-another-month", idx, cj(), json!({"second": [y2, m2], "want": fmt_day(want)}), json!(fmt_day(from_ndt(&got))));
+                        return;
+                    }
+                    // roll pair: each kind first, each kind second (by rotation)
+                    let k1 = &kinds[((y2 + m2) % 4) as usize];
+                    let k2 = &kinds[((y2 * 5 + m2 * 3) % 4) as usize];
+                    let _ = get_roll(y1, m1, k1);
+                    if let (Ok(g), Some(w)) = (get_roll(y2 as i32, m2 as u32, k2), spec_roll(y2, m2, k2)) {
+                        if from_ndt(&g) != w {
+                            acc.violate(&format!("pairs/get_roll-after-another-month/{}", roll_name(k2)), idx, cj(), json!({"first_kind": roll_name(k1), "second": [y2, m2], "want": fmt_day(w)}), json!(fmt_day(from_ndt(&g))));
+                            return;
+                        }
+                    }
+                }
+            }
+            acc.nontrivial();
+            acc.outcome(&(*y, *m));
+        }
         Case::Modified { name, from, to } => {
             let cal = NamedCal::try_new(name).unwrap();
             let offs = [-13, -12, -1, 0, 1, 3, 6, 11, 12, 25];
@@ -209,6 +253,14 @@ pub fn check(case: &Case, idx: u64, acc: &mut Acc) {
 
 pub fn cases(tier: Tier) -> Vec<Case> {
     let mut out = vec![];
+    for y in 1970..=2200i64 {
+        for m in 1..=12i64 {
+            // quick: every month of the leap / century neighbourhoods and every 7th other month as the FIRST call
+            if tier == Tier::Thorough || (y * 12 + m) % 7 == 0 || [1972, 1999, 2000, 2024, 2096, 2099, 2100, 2101, 2104, 2199, 2200].contains(&y) {
+                out.push(Case::MonthPairs { y, m });
+            }
+        }
+    }
     let wide = tier == Tier::Thorough;
     let mut y = 1970;
     while y <= 2200 {
@@ -245,7 +297,7 @@ pub fn run(ctx: &Ctx, replay_file: Option<String>) -> ! {
         "EVERY start date 1970-01-01..2200-12-31 x every month offset in -40..40 (thorough -130..130) and \
          +-{48,60,120,144,240,1200} x every roll kind (Unspecified, Int 1..31, EoM, SoM, IMM) with Modifier::Act on the \
          'all' calendar; get_imm / get_eom / is_imm / is_eom / get_roll for every day and month of 1600-2409, \
-         is_leap_year for every such year; add_months under the other four modifiers and both settlement flags on \
+         is_leap_year for every such year; get_imm and get_roll (IMM, EoM, Int 29, Int 30) for a month called FIRST (every 7th month and all months of 11 leap / century years; thorough: every month) followed by every month of 1970-2200 called second; add_months under the other four modifiers and both settlement flags on \
          three calendars with holidays = roll(unadjusted date). Oracle: civil-date arithmetic (floor division on \
          12*y+m-1+offset, min(requested day, month length), third Wednesday by scanning, Gregorian leap rule). \
          Non-trivial: offsets that change the year, days that were capped.",
